@@ -559,3 +559,37 @@ pub fn equality_shape<N: Nondet, const SHAPE: u8, const NEGATE: bool>(n: &mut N)
         None => pa!("C11", false),
     }
 }
+
+
+/// C07 / C08: casts out of a slice of a list whose range is arbitrary - forward, backwards (`4..1`), empty exclusive,
+/// negative, past the end. KIND 0: slice -> List; 1: slice -> CharList; 2: range -> List. Only Kani's own checks decide
+/// C07 here (a subtraction of the range ends on usize is the classic panic); C06 arity is asserted when the step is Ok.
+pub fn cast_slice<N: Nondet, const KIND: u8>(n: &mut N) {
+    let mut d: SD = BoundedData::new();
+    let a = d.add_number(SimpleNumber::Integer(n.i32())).unwrap();
+    let b = d.add_number(SimpleNumber::Integer(n.i32())).unwrap();
+    let c = d.add_number(SimpleNumber::Integer(n.i32())).unwrap();
+    let l = d.add_list_direct(&[a, b, c]);
+    let (sv, ev) = (n.i32(), n.i32());
+    gv_cover!(ev < sv, "backwards range");
+    gv_cover!(sv < 0, "negative start");
+    gv_cover!(sv >= 0 && ev >= sv && ev <= 2, "range inside the list");
+    let s = d.add_number(SimpleNumber::Integer(sv)).unwrap();
+    let e = d.add_number(SimpleNumber::Integer(ev)).unwrap();
+    let r = d.add_range(s, e).unwrap();
+    let sl = d.add_slice(l, r).unwrap();
+    let (left, ty) = match KIND {
+        0 => (sl, T::List),
+        1 => (sl, T::CharList),
+        _ => (r, T::List),
+    };
+    let t = d.add_type(ty).unwrap();
+    let mut st = finish(n, d, &[left, t], Instruction::ApplyType);
+    let res = execute_current_instruction(&mut st.d);
+    gv_cover!(true, "reached");
+    assert!(!st.d.overflowed);
+    if ran_ok(res) {
+        pa!("C06", st.d.n_regs == st.regs_before - 1 && st.d.regs[0] == st.sentinel);
+        pa!("C06", st.d.n_values == st.values_before && st.d.n_frames == st.frames_before);
+    }
+}
